@@ -70,6 +70,9 @@ class Summ:
             return B.Not(B.atom(("pred", ("call", dual, t[2], None))))
         if k == "call" and t[1] in ("std::cmp::PartialOrd::ge", "std::cmp::PartialOrd::gt") and len(t[2]) == 2:
             return B.atom(("pred", ("call", t[1], t[2], None)))
+        if k == "call" and t[1].endswith("::contains_key") and len(t[2]) == 2 and "Map" in t[1]:
+            # map.contains_key(k)  <=>  map.get(k) is Some
+            return self.lit_is(("call", t[1][: -len("contains_key")] + "get", t[2], None), "Some")
         if k == "call" and t[1].endswith(("<impl [T]>::contains", "Vec::<T, A>::contains")) and len(t[2]) == 2 and t[2][0][0] == "agg" and t[2][0][1] == "array" \
                 and t[2][0][2] != "repeat":
             # membership in a literal list: one equality per element
@@ -410,4 +413,30 @@ class Summ:
                 continue
             elif name in ("remove", "retain", "clear", "drain"):
                 raise Unanalysable("result set shrinks through %s" % name)
-        return out
+        return [self._through_list(body, x) for x in out]
+
+    def _through_list(self, body, rep):
+        """an element of an intermediate list that is filled by a single push (a helper returning Vec<Loc>, then `set.extend(list)`): the reported
+        value is the pushed value, under the condition of the push as well"""
+        (t, f, s) = rep
+        for x in T.subterms(t):
+            if x[0] != "elem":
+                continue
+            L = x[1][1] if x[1][0] == "iter" else x[1]
+            if not (L[0] == "call" and L[1].endswith("Vec::<T>::new") and L[3] and L[3][0] == body.path):
+                continue
+            uses = [u for u in S.call_sites(body) if u.args and u.args[0] == L]
+            pushes = [u for u in uses if u.path.endswith("Vec::<T, A>::push")]
+            others = [u for u in uses if u not in pushes and u.path.rsplit("::", 1)[-1] not in ("len", "iter", "is_empty", "clone", "into_iter", "deref", "next", "drop")]
+            if len(pushes) != 1 or others:
+                continue
+            v = pushes[0].args[1]
+
+            def sub(z):
+                if z == x:
+                    return v
+                if not isinstance(z, tuple) or not z or z[0] in ("const", "obj", "rec", "unknown", "bottom", "param"):
+                    return z
+                return tuple(sub(y) if isinstance(y, tuple) else y for y in z)
+            return (sub(t), B.And(f, self.guard(body, pushes[0].bb)), s)
+        return rep
